@@ -13,7 +13,10 @@ import (
 // serverSeqs (what AdminService.GetSnapshotMeta does) placed before late
 // attaches and lagging syncs; every document the server builds with the warm
 // cache equals the log replay, every snapshot pull succeeds and leaves the
-// receiver equal to the change-fed replicas.
+// receiver equal to the change-fed replicas. Forced compactions (after which
+// every client re-attaches) are part of the histories: the log restarts at
+// serverSeq 1, so an entry of the old generation left in the cache would be
+// used again once the new log has grown past the old head.
 
 func init() { evals["C20"] = evalC20Snap; evals["C20/snapcache"] = evalC20Snap }
 
@@ -34,12 +37,17 @@ func evalC20Snap(p prog.Program) Outcome {
 func genC20Snap() *rapid.Generator[prog.Program] {
 	base := prog.Gen(prog.GenOpts{
 		MinClients: 2, MaxClients: pick(3, 4), MaxSteps: pick(30, 50), MaxTail: pick(8, 14),
-		Kinds: prog.AllEditKinds, SchedOps: []string{"attach", "attach", "histview", "histview", "histview", "cachepurge", "cacheremove", "round"},
+		Kinds: prog.AllEditKinds, SchedOps: []string{"attach", "attach", "histview", "histview", "histview", "cachepurge", "cacheremove", "round", "compact"},
 		SyncWeight: 6, OfflineBias: true, Snapshots: true,
 	})
 	return rapid.Custom(func(t *rapid.T) prog.Program {
 		p := base.Draw(t, "p")
 		p.Cfg.Flags = map[string]int{"order": rapid.IntRange(0, 1<<20).Draw(t, "order")}
+		// a fifth of the cases: compaction right after a short prefix, so that
+		// the rest of the history outgrows the old head
+		if len(p.Steps) > 6 && rapid.IntRange(0, 4).Draw(t, "earlycompact") == 0 {
+			p.Steps[rapid.IntRange(1, 5).Draw(t, "at")] = prog.Step{Op: "compact"}
+		}
 		// the tail also views history and attaches late
 		for i := range p.Tail {
 			if x := rapid.IntRange(0, 5).Draw(t, "tailop"); x == 0 {
